@@ -505,6 +505,13 @@ def oracle_liq(tr):
             if (A1 - L1) - (A0 - L0) < -t:
                 return {"key": "liquidation-worsened-health", "what": "health after liquidation is lower than before"}
         ee_l = _slot(a1[liqee]["slots"], lb)
+        ee_l0 = _slot(pre, lb)
+        if ee_l is not None and ee_l0 is not None and ee_l["l"] >= ee_l0["l"]:
+            # 'strictly better afterwards', decided exactly: collateral was seized (>= 1 native unit) while the debt shares did
+            # not go down, so in the engine's own arithmetic (same prices, same accrued share values before and after) the
+            # health cannot have improved
+            return {"key": "liquidation-without-debt-relief",
+                    "what": f"liquidation succeeded but the liquidatee's debt shares went from {ee_l0['l']} to {ee_l['l']}: collateral taken, health not strictly better"}
         if ee_l is None or ee_l["l"] < ONE or ee_l["a"] >= ONE:
             return {"key": "liquidation-flipped-debt", "what": "liquidatee debt position exhausted or flipped into a deposit"}
         ee_a = _slot(a1[liqee]["slots"], ab)
